@@ -1134,7 +1134,11 @@ class xfunc_quantile(xfunc):
             left = (right - 1).clip(min=0)
             xdiff = numpy.diff(a, append=[0], axis=0)
             with numpy.errstate(divide="ignore", invalid="ignore"):
-                frac = (prob - cs[left]).clip(min=0) / w[right.clip(max=len(w) - 1)]
+                num = (prob - cs[left]).clip(min=0)
+                den = w[right.clip(max=len(w) - 1)]
+                # At probability 1 `right` runs off the end and is clipped to
+                # the last row, whose weight may be 0: that is 0/0, not "missing".
+                frac = numpy.divide(num, den, out=numpy.zeros_like(num), where=den != 0)
                 return a[left] + frac * xdiff[left]
 
         return numpy.apply_along_axis(weighted_quantile_1d, 0, arr)
